@@ -16,7 +16,7 @@ import WuffsVerif.Model.CExprTreeAst
                         (Model/CStmt.lean lowerL, subject of Props/C04Stmt.lean) writes for the method
 Stateless ops of the shape check (canonical prefix form of the C that `lower…` yields;
 an operand kind is `v` (no ConstValue) or `c<value>`):
-  lower <Bop> <ty> <lk> <rk>        lowerun <Uop>        lowerassoc <Aop> <ty> <n>
+  lower <Bop> <ty> <lk> <rk>        lowerun <Uop>        lowerassoc <Aop> <ty> <n> [<k0> <k1>]
   loweras <from> <to> plain|maskR:<m>|maskL:<m>          lowerassign <op=> <ty> <rk>
 -/
 open WuffsVerif WuffsVerif.Line WuffsVerif.WSem WuffsVerif.WOps WuffsVerif.C
@@ -65,6 +65,16 @@ def shapeStep (l : List String) : Option String :=
     let k ← n.toNat?
     match lowerAssoc w t k with
     | some e => pure e.show
+    | none => pure "none"
+  | ["lowerassoc", op, ty, n, k0, k1] => do
+    -- the first two operands are constants
+    let w ← wopOfAssoc op
+    let t ← parseWTy ty
+    let k ← n.toNat?
+    let c0 ← parseKind k0
+    let c1 ← parseKind k1
+    match lowerAssocK w t k c0.isSome c1.isSome with
+    | some e => pure (substHoles (fun i => if i == 0 then c0 else if i == 1 then c1 else none) e).show
     | none => pure "none"
   | ["loweras", frm, to, arg] => do
     let f ← parseWTy frm
